@@ -425,6 +425,49 @@ def check_kernel_core(check, an: Analysis, rule: str = 'kernel', skip=()):
         c15.check_loop_never_kept(check, an, rule)
 
 
+def check_until_core(check, an: Analysis, rule: str = 'until'):
+    """
+    `async with until(...)` around an operation is the way to give it a deadline: every
+    property of an operation that can be waited for decides that an until-block takes back
+    what it subscribed -- by whichever activity it is closed -- and that closing a scope
+    withdraws its own signals (cheap; rules shared with C04/C07)
+    """
+    from . import c07
+    check.rule(rule, 'until-blocks subscribe (their activity, their own signal) and take '
+                     'the same pair back when closed; closing a scope withdraws its own '
+                     'signals on every way through (rules shared with C04/C07)')
+    c07.check_until_pairing(check, an, rule)
+    check_disable_interrupts(check, an, rule)
+
+
+def check_scope_core(check, an: Analysis, rule: str = 'scope', skip=()):
+    """
+    The scope rules every property about tasks in scopes rests on: the closing sequence on
+    every exit of __aexit__ (whatever signal arrives while it waits), a foreign signal
+    leaves __aexit__ as an exception, closing loops walk copies and close every child they
+    meet, only the exit closes children, Task.__close__ finalises started and unstarted
+    tasks alike (rules shared with C04)
+    """
+    from . import c04
+    check.rule(rule, 'scope core: closing sequence on every exit; foreign signals leave the '
+                     'exit as exceptions; closing loops walk copies and close every child; '
+                     'only the exit closes children; Task.__close__ finalises every task '
+                     '(rules shared with C04)')
+    receivers = scope_receivers(an)
+    if 'close' not in skip:
+        c04.check_close_on_every_exit(check, an, rule, receivers)
+    if 'foreign' not in skip:
+        check_foreign_signal_leaves_exit(check, an, rule)
+    if 'copies' not in skip:
+        c04.check_copy_iteration(check, an, rule)
+    if 'only-exit' not in skip:
+        c04.check_only_the_exit_closes(check, an, rule, receivers)
+    if 'task-close' not in skip:
+        c04.check_task_close(check, an, rule)
+    if 'until' not in skip:
+        check_until_core(check, an, rule)
+
+
 def check_disable_interrupts(check, an: Analysis, rule: str):
     """
     whatever class the scope has, every way through its ``_disable_interrupts`` (the first
